@@ -595,16 +595,22 @@ def execute(sc):
                 if not obs['exc']['is_ay']:
                     res['violations'].append(core.violation('missing.error_kind', f'{label}: missing include reported as {obs["exc"]["type"]}, not an awesomeyaml error: {obs["exc"]["msg"][:300]}', type=obs['exc']['type']))
                     break
-                mm = _MISSING_RE.search(obs['exc']['msg'])
-                named = re.findall(r"'([^']+)'", mm.group(1)) if mm else []
+                msg = obs['exc']['msg']
                 miss_names = {expand_home(i['name']) for i in truly_missing}
-                if not named or not any(nm in miss_names for nm in named):
-                    res['violations'].append(core.violation('missing.not_named', f'{label}: error does not name a missing file; missing={sorted(miss_names)!r}; message: {obs["exc"]["msg"][:600]}'))
+                # "an error naming it": the name (as written, or its last component) of at least one missing file appears in the text
+                if not any(nm in msg or posixpath.basename(nm) in msg for nm in miss_names):
+                    res['violations'].append(core.violation('missing.not_named', f'{label}: error does not name a missing file; missing={sorted(miss_names)!r}; message: {msg[:600]}'))
                     break
+                # if the message carries an explicit list of missing names (current format), it must not list files that exist
+                mm = _MISSING_RE.search(msg)
+                named = re.findall(r"'([^']+)'", mm.group(1)) if mm else []
                 exist_names = {expand_home(i['name']) for i in mat['includes'] if lookup_model(files, i['from'], i['name']) is not None} - miss_names
                 wrong = [nm for nm in named if nm in exist_names]
                 if wrong:
-                    res['violations'].append(core.violation('missing.names_existing', f'{label}: error lists {wrong!r} as missing but they exist; message: {obs["exc"]["msg"][:600]}'))
+                    res['violations'].append(core.violation('missing.names_existing', f'{label}: error lists {wrong!r} as missing but they exist; message: {msg[:600]}'))
+                    break
+                if named and not any(nm in miss_names for nm in named):
+                    res['violations'].append(core.violation('missing.not_named', f'{label}: the error\'s list of missing files {named!r} contains none of the missing ones {sorted(miss_names)!r}'))
                     break
             elif f['kind'] in ('io', 'replaced'):
                 if f['kind'] == 'io':
